@@ -174,9 +174,10 @@ func Run(r *core.Run) {
 	for _, sd := range []struct {
 		scn string
 		dev int
-	}{{"eddsa-keygen", 1}, {"ecdsa-keygen", 1}, {"eddsa-resharing", 0}, {"ecdsa-resharing", 0}} {
+	}{{"eddsa-keygen", 1}, {"ecdsa-keygen", 1}, {"eddsa-resharing", 0}, {"ecdsa-resharing", 0}, {"eddsa-signing", 1}} {
 		for _, c := range fault.EnumerateCraftedCases(sd.scn, sd.dev) {
-			if c.Dev.Op == "recommit:raise-degree" {
+			// (and, on edwards25519, committed points that carry a component of order 2, 4 or 8)
+			if c.Dev.Op == "recommit:raise-degree" || strings.HasPrefix(c.Dev.Op, "recommit:add-small-order-point-") {
 				cases = append(cases, c)
 			}
 		}
